@@ -60,8 +60,8 @@ Example D7_known_refuted : let s := run_doc "xhtml" 0 ".Im i.png cap
 " in quiet s = true /\ wf_fragment (out_of s) = false.
 Proof. vm_compute. split; reflexivity. Qed.
 
-(* proved for every document of a sub-language and every world: text lines, .Bm and .Em blocks (any arguments),
-   XHTML fragment mode.  The output is read by the tag machine of Proofs/Tok.v: it ends in character data
+(* proved for every document of a sub-language and every world: text lines, .Bm, .Em and .Sm blocks (any arguments)
+   and argument-less .P, XHTML fragment mode.  The output is read by the tag machine of Proofs/Tok.v: it ends in character data
    with no element left open, and no closing tag ever mismatched (the machine would be stuck in Bad). *)
 Require Tok Inv Frag.
 Theorem C02_fragment_balanced_partial : forall fuel wd main bs, Forall Frag.in_frag bs ->
@@ -79,3 +79,9 @@ Theorem C02_Bm_keeps_invariant : forall s, Inv.Inv s -> Inv.markup_ok (mtags s) 
 Proof. exact Inv.Inv_macro_bm. Qed.
 Theorem C02_Em_keeps_invariant : forall s, Inv.Inv s -> Inv.markup_ok (mtags s) -> process s = true -> inl s = false -> Inv.Inv (Proc1.macro_em s).
 Proof. exact Inv.Inv_macro_em. Qed.
+Theorem C02_Sm_keeps_invariant : forall s, Inv.Inv s -> Inv.markup_ok (mtags s) -> process s = true -> inl s = false ->
+  (par s = false -> verse s = false /\ Proc1.scope_verse s = false) -> Inv.Inv (Proc2.macro_sm s).
+Proof. exact Inv.Inv_macro_sm. Qed.
+Theorem C02_P_keeps_invariant : forall pim s, Inv.Inv s -> Inv.markup_ok (mtags s) -> process s = true -> args s = [] ->
+  verse s = false -> Proc1.scope_verse s = false -> Inv.Inv (Proc2.macro_p pim s).
+Proof. exact Inv.Inv_macro_p_plain. Qed.
